@@ -74,6 +74,12 @@ impl<I: Interner> Table<I> {
         self.strands.push_back(strand);
     }
 
+    /// Puts back, at the front of the queue, a strand that was being
+    /// pursued when the search was abandoned.
+    pub(crate) fn requeue_strand(&mut self, strand: CanonicalStrand<I>) {
+        self.strands.push_front(strand);
+    }
+
     pub(crate) fn strands_mut(&mut self) -> impl Iterator<Item = &mut CanonicalStrand<I>> {
         self.strands.iter_mut()
     }
